@@ -363,6 +363,9 @@ def to_coq(case):
         if any(ord(c) > 127 for s in case["segs"] for c in s):
             return None
         return f"CPath {coq_bytes(CWD)} {cstr(case['root'])} {segl(case['segs'])}"
+    if any(c[0] == "NLST" for c in case["cmds"]) and any(
+            c[0] == "CWD" and any("." in seg and seg not in (".", "..") for seg in c[1].split("/")) for c in case["cmds"]):
+        return None     # NLST in a directory whose name has a '.' filters its PARENT (see trusted base); oracle only
     cmds = []
     for c in case["cmds"]:
         if c[0] == "CWD":
